@@ -95,7 +95,8 @@ static uint64_t do_call(uint64_t ci) {
             /* look-alike decoy in the same buffers: same count, first and last element */
             uint64_t *real = malloc(n * 8);
             memcpy(real, a, n * 8);
-            for (size_t i = 1; i + 1 < n; i++) a[i] = (c->domain == DOM_SORTED || c->domain == DOM_SIGNED_DELTA) ? a[0] : a[n - 1 - i];
+            /* a true permutation of the interior where the domain allows it (same multiset, other order) */
+            for (size_t i = 1; i + 1 < n; i++) a[i] = (c->domain == DOM_SORTED || c->domain == DOM_SIGNED_DELTA) ? real[0] : real[n - 1 - i];
             if (c->domain == DOM_SIGNED_DELTA) a[n - 1] = a[0];
             encinfo_t dinfo;
             memset(&dinfo, 0, sizeof dinfo);
@@ -227,7 +228,7 @@ static uint64_t do_call(uint64_t ci) {
             if (WORLD == 9 && n >= 3) {
                 uint64_t *real = malloc(n * 8);
                 memcpy(real, a, n * 8);
-                for (size_t i = 1; i + 1 < n; i++) a[i] = a[n - 1 - i] ^ 1;
+                for (size_t i = 1; i + 1 < n; i++) a[i] = real[n - 1 - i];
                 varintAdaptiveAnalyze(a, n, &st);
                 uint8_t *dd = malloc(scratch_size(n));
                 varintAdaptiveEncode(dd, a, n, NULL);
